@@ -406,4 +406,54 @@ theorem runG_proj (cfg : List Trig) (gs : List (Tid × Event)) (S : Store) (t : 
       simp only [h, if_false, List.nil_append]
       exact this
 
+/-! ### `PyX.basename`: the text after the last `/` -/
+
+theorem mem_takeWhile_pos {α : Type} (p : α → Bool) (l : List α) (x : α) (h : x ∈ l.takeWhile p) : p x = true := by
+  induction l with
+  | nil => simp at h
+  | cons a l ih =>
+    by_cases ha : p a = true
+    · simp only [List.takeWhile_cons, ha, if_true, List.mem_cons] at h
+      rcases h with rfl | h
+      · exact ha
+      · exact ih h
+    · simp [ha] at h
+
+theorem dropWhile_head_neg {α : Type} (p : α → Bool) (l : List α) (c : α) (r : List α)
+    (h : l.dropWhile p = c :: r) : p c = false := by
+  induction l with
+  | nil => simp at h
+  | cons a l ih =>
+    by_cases ha : p a = true
+    · simp only [List.dropWhile_cons, ha, if_true] at h
+      exact ih h
+    · simp only [List.dropWhile_cons, ha] at h
+      simp at h
+      rw [← h.1]
+      simpa using ha
+
+theorem basename_toList (s : String) :
+    (PyX.basename s).toList = (s.toList.reverse.takeWhile (fun c => c != '/')).reverse := by
+  simp [PyX.basename]
+
+theorem basename_no_slash (s : String) : '/' ∉ (PyX.basename s).toList := by
+  rw [basename_toList]
+  intro h
+  rw [List.mem_reverse] at h
+  have := mem_takeWhile_pos _ _ _ h
+  simp at this
+
+theorem basename_suffix (s : String) :
+    ∃ d : List Char, s.toList = d ++ (PyX.basename s).toList ∧ (d = [] ∨ d.getLast? = some '/') := by
+  rw [basename_toList]
+  refine ⟨(s.toList.reverse.dropWhile (fun c => c != '/')).reverse, ?_, ?_⟩
+  · rw [← List.reverse_append, List.takeWhile_append_dropWhile, List.reverse_reverse]
+  · cases h : s.toList.reverse.dropWhile (fun c => c != '/') with
+    | nil => left; rfl
+    | cons c r =>
+      right
+      have := dropWhile_head_neg _ _ _ _ h
+      simp at this
+      simp [this]
+
 end Trigger
